@@ -446,7 +446,16 @@ class Queue(Greenlet):
             return
         if id not in self.active_ids:
             self.active_ids.add(id)
-            self._pool_spawn('relay', self._attempt, id, envelope, attempts)
+            pool = getattr(self, 'relay_pool', None)
+            if pool is not None and pool.full():
+                # Wait for the relay pool from a separate greenlet: waiting
+                # here would hold a store pool slot that the running
+                # attempts need before they can finish.
+                gevent.spawn(self._pool_spawn, 'relay', self._attempt,
+                             id, envelope, attempts)
+            else:
+                self._pool_spawn('relay', self._attempt,
+                                 id, envelope, attempts)
 
     def _check_ready(self, now):
         last_i = 0
